@@ -1,6 +1,7 @@
 /- Driver family `ops`: operator pipelines over probe operators (C14; the erased forms of C17). -/
 import Uec.Model.OperatorSpec
 import Uec.Model.OpProbe
+import Uec.Model.Erased
 import Driver.RandIO
 namespace Driver.OpsFam
 open Uec Driver
@@ -93,6 +94,38 @@ partial def toOp : SX → Option Op
   | .list [.atom "wrapscorer", gm, .atom c] => do pure (Op.wrapScorer (← toOp gm) (Probe.score (← c.toNat?)))
   | _ => none
 
+/-- what may stand behind an erased pointer: a pipeline, or a bare selector / mutator /
+    recombinator / child-maker probe -/
+def toWrapped (x : SX) : Option Op :=
+  match x with
+  | .list [.atom "pc", .atom a, .atom b, .atom c, .atom d] => do
+    let id ← a.toNat?; let dd ← b.toNat?; let sid ← c.toNat?; let sd ← d.toNat?
+    pure (.leaf id (Probe.pchild id dd sid sd))
+  | _ => (toComponent x).orElse fun _ => toOp x
+
+def toPointer : String → Option Pointer
+  | "ref" => some .ref | "mutref" => some .mutRef | "cellrefmut" => some .cellRefMut | "box" => some .box
+  | "arc" => some .arc | "rc" => some .rc | "cellref" => some .cellRef | _ => none
+def toAuto : String → Option AutoTraits
+  | "none" => some .none | "send" => some .send | "sync" => some .sync | "sendsync" => some .sendSync | _ => none
+def toConv : String → Option Conv
+  | "same" => some .same | "boxed" => some .boxed | "custom" => some .custom | _ => none
+
+def showPointer : Pointer → String
+  | .ref => "ref" | .mutRef => "mutref" | .cellRefMut => "cellrefmut" | .box => "box"
+  | .arc => "arc" | .rc => "rc" | .cellRef => "cellref"
+def showAuto : AutoTraits → String
+  | .none => "none" | .send => "send" | .sync => "sync" | .sendSync => "sendsync"
+
+def showEErr : EErr → String
+  | .same e => s!"same({showErr e})"
+  | .boxed e => s!"boxed({showErr e})"
+  | .custom e => s!"custom({showErr e})"
+
+def showERes : Except EErr Val → String
+  | .ok v => "ok " ++ showVal v
+  | .error e => "err " ++ showEErr e
+
 /-- Like `runIO`, but also hands back the tape of answers that was read. -/
 partial def runIOTape {α : Type} (stdin stdout : IO.FS.Stream) : Rand α → List Ans → IO (α × List Ans)
   | .pure a, acc => pure (a, acc.reverse)
@@ -118,6 +151,21 @@ def handle (stdin stdout : IO.FS.Stream) (args : List String) : IO String := do
   let toks := tokenize (" ".intercalate args)
   let inToks := toks.takeWhile (· ≠ "|")
   let opToks := (toks.dropWhile (· ≠ "|")).drop 1
+  if args == ["flavours"] then
+    return ",".intercalate (Flavour.all.map fun (p, a) => showPointer p ++ "/" ++ showAuto a)
+  -- `(dyn <pointer> <auto traits> <conversion> <wrapped>)`: the erased forms of C17
+  match (parse1 inToks).bind toVal, parse1 opToks with
+  | some x, some (.list [.atom "dyn", .atom p, .atom a, .atom c, w]) =>
+    match toPointer p, toAuto a, toConv c, toWrapped w with
+    | some p, some a, some c, some op =>
+      let (r, tape) ← runIOTape stdin stdout (op.evalErased (p, a) c x) []
+      -- Spec: what the wrapped implementation itself does on the same stream, error converted
+      let spec := match Spec.exec op x tape with
+        | some o => s!"{showERes (match o.result with | .ok v => .ok v | .error e => .error (c.into e))} ; rest={o.rest.length} ; calls={",".intercalate (o.calls.map showCall)}"
+        | none => "tape-too-short"
+      return s!"{showERes r} ## {spec}"
+    | _, _, _, _ => return "bad-request"
+  | _, _ => pure ()
   match (parse1 inToks).bind toVal, (parse1 opToks).bind toOp with
   | some x, some op =>
     let (r, tape) ← runIOTape stdin stdout (op.eval x) []
